@@ -881,10 +881,13 @@ impl Value {
             }
             InnerDecimalSchema::Bytes => (),
         };
+        // A fixed must be wide enough for the declared precision. A bytes decimal has no width of its
+        // own: a small number takes few bytes whatever the precision is.
+        let fixed_width = matches!(inner, InnerDecimalSchema::Fixed(_));
         match self {
             Value::Decimal(num) => {
                 let num_bytes = num.len();
-                if max_prec_for_len(num_bytes)? < precision {
+                if fixed_width && max_prec_for_len(num_bytes)? < precision {
                     Err(Details::ComparePrecisionAndSize {
                         precision,
                         num_bytes,
@@ -896,7 +899,7 @@ impl Value {
                 // check num.bits() here
             }
             Value::Fixed(_, bytes) | Value::Bytes(bytes) => {
-                if max_prec_for_len(bytes.len())? < precision {
+                if fixed_width && max_prec_for_len(bytes.len())? < precision {
                     Err(Details::ComparePrecisionAndSize {
                         precision,
                         num_bytes: bytes.len(),
